@@ -94,12 +94,52 @@ def tobool(x):
     return z3.BoolVal(bool(x))
 
 
+def family(x):
+    """the Python type family a value stands for: 'bytes', 'str', 'int', 'none', 'other' or None (unknown)"""
+    if x is None:
+        return "none"
+    if isinstance(x, (bytes, bytearray, Rope)):
+        return "bytes"
+    if isinstance(x, str):
+        return "str"
+    if isinstance(x, (bool, int)):
+        return "int"
+    if is_sym(x):
+        return "int" if (z3.is_int(x) or z3.is_bool(x) or z3.is_bv(x)) else None
+    if isinstance(x, SymVal):
+        st = getattr(x, "sym_type", None)
+        if st is not None:
+            try:
+                t = st()
+            except Exception:
+                return None
+            return {bytes: "bytes", bytearray: "bytes", str: "str", int: "int", bool: "int"}.get(t, "other")
+        if type(x).__name__ in ("SStr", "HexStr", "HexStrUpper", "CStr", "OStr", "B64Str", "BitStr", "HexNum", "BinNum", "StrOfLen", "WordsStr"):
+            return "str"
+        return None
+    if isinstance(x, (tuple, list, dict, set, frozenset, float)):
+        return "other"
+    return None
+
+
+def unlike(mine, other):
+    """the answer of an equality test that no specific rule decided: values of different Python types are never
+    equal; two representations of the SAME type family (e.g. stream bytes and a rope) are not comparable here"""
+    fam = family(other)
+    if fam is not None and fam != mine:
+        return False
+    raise NotImplementedError(f"equality of a {mine} value with {type(other).__name__} is not modelled")
+
+
 def eq(a, b):
     """Structural equality on ints / bools / ropes / tuples / None / native values."""
     if isinstance(a, Rope) or isinstance(b, Rope):
         if (isinstance(a, (Rope, bytes, bytearray)) and isinstance(b, (Rope, bytes, bytearray))):
             return as_rope(a).eq(as_rope(b))
-        return False
+        o = b if isinstance(a, Rope) else a
+        if hasattr(o, "sym_eq"):
+            return o.sym_eq(a if o is b else b)
+        return unlike("bytes", o)
     if hasattr(a, "sym_eq"):
         return a.sym_eq(b)
     if hasattr(b, "sym_eq"):
@@ -120,7 +160,10 @@ def eq(a, b):
             return False
         if is_sym(a) and is_sym(b):
             if a.sort() != b.sort():
-                return False
+                if {z3.is_bool(a), z3.is_bool(b)} == {True, False} and (z3.is_int(a) or z3.is_int(b)):
+                    bl, it = (a, b) if z3.is_bool(a) else (b, a)
+                    return z3.If(bl, 1, 0) == it            # True == 1, False == 0
+                raise NotImplementedError("equality of terms of different sorts")
             return a == b
         s, n = (a, b) if is_sym(a) else (b, a)
         if z3.is_bool(s):
@@ -132,6 +175,8 @@ def eq(a, b):
         if z3.is_int(s):
             if isinstance(n, (int, bool)):
                 return s == int(n)
+            if isinstance(n, float):
+                raise NotImplementedError("equality of a symbolic integer with a float")
             return False
         return False
     return a == b
@@ -436,7 +481,7 @@ class OBytes(SymVal):
         if isinstance(other, (Rope, bytes, bytearray)):
             r = as_rope(other)
             return land(eq(self.len, len(r)), eq(self.val, r.be()))
-        return False
+        return unlike("bytes", other)
 
     def sym_type(self):
         return bytes
